@@ -48,14 +48,17 @@ type c10Node struct {
 }
 
 type c10Case struct {
-	Nodes       [2]c10Node     `json:"nodes"`
-	Master      int            `json:"master_state"` // 0 normal, 1 offline, 2 read-only, 3 semi-sync wrong
-	SemiSync    bool           `json:"semi_sync"`
-	Aggressive  bool           `json:"aggressive"`
-	MaxAttempts int            `json:"max_attempts"`
-	Perm        int            `json:"map_order"`
-	Unlisted    bool           `json:"h2_not_in_published_list,omitempty"` // h2 was dropped from active_nodes earlier (e.g. down for long)
-	Dev         *sim.Deviation `json:"deviation,omitempty"`
+	Nodes       [2]c10Node `json:"nodes"`
+	Master      int        `json:"master_state"` // 0 normal, 1 offline, 2 read-only, 3 semi-sync wrong
+	SemiSync    bool       `json:"semi_sync"`
+	Aggressive  bool       `json:"aggressive"`
+	MaxAttempts int        `json:"max_attempts"`
+	Perm        int        `json:"map_order"`
+	Unlisted    bool       `json:"h2_not_in_published_list,omitempty"` // h2 was dropped from active_nodes earlier (e.g. down for long)
+	// the manager runs on h3 and, after round 3, h3 is removed from the registry (`mysync host remove h3`)
+	// while its mysync keeps the manager lock: from the next iteration on h3 is an unregistered host
+	MgrHostRemoved bool           `json:"manager_host_removed_from_registry,omitempty"`
+	Dev            *sim.Deviation `json:"deviation,omitempty"`
 }
 
 const c10Rounds = 14
@@ -214,10 +217,26 @@ func c10Run(r *vt.Run, c c10Case) (points []sim.Point) {
 				lastAttempt[x] = w.Now()
 			}
 		})
-		a := h.Start("h1")
+		mgrHost := "h1"
+		if c.MgrHostRemoved {
+			mgrHost = "h3"
+		}
+		a := h.Start(mgrHost)
 		base := 0
+		removedAt := -1
+		if c.MgrHostRemoved {
+			w.OnApply = append(w.OnApply, func(ap *sim.Applied) {
+				if removedAt >= 0 && ap.Call.Kind == "sql" && ap.Call.Target == "h3" && ap.Call.Proc == h.ID(a) && ap.Point.Idx > removedAt {
+					violate("3-never-a-statement-to-an-unregistered-host", fmt.Sprintf("statement %q sent to h3 after it was removed from the registry", ap.Call.SQL))
+				}
+			})
+		}
 		for round := 0; round < c10Rounds; round++ {
 			h.InjectHealth()
+			if c.MgrHostRemoved && round == 4 {
+				w.ZK.Del(vns + "/ha_nodes/h3")
+				removedAt = len(w.Trace) // the registry is re-read at the top of every iteration, before any statement
+			}
 			if round == 0 {
 				base = len(w.Trace)
 				if c.Dev != nil {
@@ -374,6 +393,10 @@ func checkC10(r *vt.Run) {
 					return
 				}
 				run(c10Case{Nodes: [2]c10Node{n2, healthy}, Master: ms, SemiSync: cf.semi, Aggressive: cf.aggr, MaxAttempts: cf.max})
+			}
+			if ms == 0 {
+				run(c10Case{Nodes: [2]c10Node{healthy, healthy}, Master: ms, SemiSync: cf.semi, Aggressive: cf.aggr, MaxAttempts: cf.max, MgrHostRemoved: true})
+				run(c10Case{Nodes: [2]c10Node{{true, false, srcMaster, thStopped, true, 1}, healthy}, Master: ms, SemiSync: cf.semi, Aggressive: cf.aggr, MaxAttempts: cf.max, MgrHostRemoved: true})
 			}
 			// stale masters that are not (any more) members of the published list
 			for _, n2 := range all {
